@@ -160,6 +160,11 @@ func (db *DB) DeleteAuthorityPolicy(ctx context.Context) error {
 	if err != nil {
 		return err
 	}
+	// a deleted policy leaves its key with an empty value, which reads as no
+	// policy and no error
+	if old == nil {
+		return admin.NewError(admin.ErrorNotFoundType, "authority policy not found")
+	}
 
 	if err := db.save(ctx, old.ID, nil, old, "authority_policy", authorityPoliciesTable); err != nil {
 		return admin.WrapErrorISE(err, "error deleting authority policy")
